@@ -23,12 +23,34 @@ const floatCaveat = "that evaluating the extracted term in IEEE-754 double arith
 // level's decodeOne and constructor (Ver: by the v3 Decodes), so the state a
 // Score function sees is the state the decoder produced - whichever decoder
 // produced it and whatever was queried in between.
-func (e *Env) objectIntegrity(v *spec.Version) {
-	ls, err := e.F.Levels(v)
+func (e *Env) objectIntegrity(v *spec.Version, upTo string) {
+	all, err := e.F.Levels(v)
 	if err != nil {
 		return
 	}
+	// only the levels whose fields the property's equation reads
+	var ls []*facts.Level
+	for _, l := range all {
+		ls = append(ls, l)
+		if l.Spec.Name == upTo {
+			break
+		}
+	}
 	e.writeOwnership(v, ls)
+	// the score of a *vector* also depends on the token NAME:VALUE being stored as parser(VALUE) in the field
+	// called NAME: keep the wiring rules of the shared decoder analysis (and nothing else of it)
+	before := len(e.C.Obs)
+	for _, l := range ls {
+		m := e.modelDecodeOne(l, "decode-one")
+		e.armRules(l, m)
+	}
+	kept := e.C.Obs[:before]
+	for _, o := range e.C.Obs[before:] {
+		if o.Rule == "wiring" || o.Rule == "arm-parser" {
+			kept = append(kept, o)
+		}
+	}
+	e.C.Obs = kept
 }
 
 func scoreBoiler(e *Env) {
@@ -108,7 +130,7 @@ func c01(e *Env) {
 	})
 	e.weightObligations(&spec.V3, "AV", "AC", "PR", "UI", "S", "C", "I", "A")
 	e.viewObligations(k, "same-object")
-	e.objectIntegrity(&spec.V3)
+	e.objectIntegrity(&spec.V3, "Base")
 }
 
 // zeroImpactFacts: in the three impact tables weight 0 belongs to code N only and every weight is < 1.
@@ -178,7 +200,7 @@ func c02(e *Env) {
 	})
 	e.weightObligations(&spec.V3, "E", "RL", "RC")
 	e.constructorDefaults(k.level("Temporal"), "constructor-default")
-	e.objectIntegrity(&spec.V3)
+	e.objectIntegrity(&spec.V3, "Temporal")
 }
 
 // ---------------------------------------------------------------------------
@@ -202,7 +224,7 @@ func c03(e *Env) {
 	e.weightObligations(&spec.V3, "AV", "AC", "PR", "UI", "S", "C", "I", "A", "E", "RL", "RC", "CR", "IR", "AR", "MAV", "MAC", "MPR", "MUI", "MS", "MC", "MI", "MA")
 	e.constructorDefaults(k.level("Environmental"), "constructor-default")
 	e.versionTables()
-	e.objectIntegrity(&spec.V3)
+	e.objectIntegrity(&spec.V3, "Environmental")
 }
 
 func (e *Env) termV3Base(k *scoreKit) bool {
@@ -302,7 +324,7 @@ func c04(e *Env) {
 		k.validChain("valid-chain")
 	})
 	e.weightObligations(&spec.V2, "AV", "AC", "Au", "C", "I", "A", "E", "RL", "RC")
-	e.objectIntegrity(&spec.V2)
+	e.objectIntegrity(&spec.V2, "Temporal")
 }
 
 func (e *Env) termV2BaseTemporal(k *scoreKit, report bool) {
@@ -357,7 +379,7 @@ func c05(e *Env) {
 		k.validChain("valid-chain")
 	})
 	e.weightObligations(&spec.V2, "AV", "AC", "Au", "C", "I", "A", "E", "RL", "RC", "CDP", "TD", "CR", "IR", "AR")
-	e.objectIntegrity(&spec.V2)
+	e.objectIntegrity(&spec.V2, "Environmental")
 }
 
 func (e *Env) termV2Env(k *scoreKit, report bool) {
